@@ -1014,9 +1014,12 @@ def run(ctx: Ctx) -> Result:
         if r['result'] == 'deadlock':
             res.violations.append(Violation(
                 'queue-wait-deadlock:' + r['scenario'],
-                f"{r['scenario']}: with the queue at capacity the feeding role and {len(r['alive']) - 1} other role(s) are still "
-                f"blocked after 3 s (threads alive: {r['alive']}; waiting for locks: {r['blocked_on_lock']}): the producer waits "
-                f"for room in the queue while holding a lock the draining role needs",
+                (f"{r['scenario']}: with the queue at capacity the feeding role and {len(r['alive']) - 1} other role(s) are still "
+                 f"blocked after 3 s (threads alive: {r['alive']}; waiting for locks: {r['blocked_on_lock']}): the producer waits "
+                 f"for room in the queue while holding a lock the draining role needs") if 'queue' in r['scenario'] or 'slot' in r['scenario'] else
+                (f"{r['scenario']}: {r['alive'][0]} and {len(r['alive']) - 1} other role(s) are still blocked after 3 s (threads alive: "
+                 f"{r['alive']}; waiting for locks: {r['blocked_on_lock']}): a thread waits for another thread to end while holding "
+                 f"a lock that thread (or one it waits for) needs"),
                 {'scenario': r['scenario'], 'queue_size': 1, 'alive': r['alive'], 'blocked_on_lock': r['blocked_on_lock']}))
         elif r['result'] != 'completed':
             res.disagreements.append({'full-queue-scenario-did-not-finish': r})
@@ -1128,7 +1131,45 @@ def full_queue_scenarios():
         time.sleep(0.2)
         engine_idle_updates(s, p)
 
+    # the distributed main loop ENDS (close() was called) while the outgoing thread is in the middle of a pass with two peers
+    # to resynchronise and the engine publishes a local change: whatever the main thread does on its way out, it must
+    # not wait for the outgoing thread while holding what the engine needs (real outgoing thread; the first send hangs)
+    def main_ends_mid_pass(s):
+        d = s.dist
+        st = {'n': 0, 'gate': threading.Event(), 'entered': threading.Event()}
+
+        def slow_send(dev, t, f, m):
+            st['n'] += 1
+            if st['n'] == 1:
+                st['entered'].set()
+                st['gate'].wait(2.5)
+            return 0
+        d._tcp_send = slow_send
+        d._thread_incoming = FakeThread()
+        d._thread_outgoing = threading.Thread(target=d._tcp_outgoing, daemon=True, name='real-outgoing')
+        d._running, d._closed, d._thread_closed = False, False, False
+        s._mid = st
+
+    def main_run(s, p):
+        s.dist.run()
+
+    def controller_close(s, p):
+        s._mid['entered'].wait(2.0)
+        s.dist.close()
+
+    def engine_publishes(s, p):
+        s._mid['entered'].wait(2.0)
+        time.sleep(0.3)
+        s.feed(1)
+        s.engine.update()
+
+    def release_send(s, p):
+        time.sleep(0.9)
+        s._mid['gate'].set()
+
     return [
+        ('main-ends-while-outgoing-mid-pass', main_ends_mid_pass, ('dist_main', main_run),
+         [('controller', controller_close), ('engine', engine_publishes), ('feeder', release_send)]),
         ('receiver-last-slot-race', bound_receiver_one_slot, ('feeder', feeder_first),
          [('feeder', feeder_second), ('engine', engine_after_race)]),
         ('producer-queue-overflow', bound_producer, ('dist_main', main_two_completions),
